@@ -38,16 +38,18 @@ ENTRY = {'coq_dir': 'C06',
          'ConnectionEstablished -> accept | reject, inbound, outbound and a bare socket), the remote one a node that accepts everything and runs its '
          'connection tasks. Oracle: a rejected connection is seen going away by the remote end (its connection task reports ConnectionClosed, its '
          'dial fails, the bare socket reads EOF), its entry is consumed (a second reject / reject_pending finds nothing), nothing is reported about '
-         'it afterwards; an accepted connection stays open, also after the later rejections of the case. (5) 9604, two table cases every run + one '
-         'generated case in 500 (4000 thorough): COMPLETE Litep2p nodes over real loopback TCP sockets, configured through the public API '
-         '(ConfigBuilder::with_connection_limits) and observed through it only: the node under test with limits from {None,0,1,2}^2 and four remote '
-         'nodes (one runtime each, so that a node can be killed); operations: a remote dials the node, the node dials a remote by address, a remote '
-         'is killed; recorded: whether the node reports ConnectionEstablished / ConnectionClosed, the result of Litep2p::dial_address (Ok / '
-         'ConnectionLimit), and what the remote saw (open / established then closed / dial failed). The expected answers are computed by the MANAGER '
-         'MODEL from the translation of each operation into manager events (AllocConn, PendingInbound, Established, AcceptDone, Closed, '
-         'dial_address). Oracle on the public observations: never above the maxima, a new peer gets in below them, a turned-away remote sees its '
-         'connection go, ConnectionLimit exactly at the outbound maximum, ConnectionClosed exactly for a connected peer. (6) untagged: stored corpus '
-         'cases in the plain manager format. Non-trivial: trace >= 8 numbers; distinct (case, trace) pairs are counted.',
+         'it afterwards; an accepted connection stays open, also after the later rejections of the case. Thorough tier, aux stream: the same socket '
+         'stream over the REAL QuicTransport (harness built with --features quic: 25 cases + the stored script case; inbound and outbound, '
+         'accept_pending | reject_pending, accept | reject). (5) 9604, two table cases every run + one generated case in 500 (4000 thorough): '
+         'COMPLETE Litep2p nodes over real loopback TCP sockets, configured through the public API (ConfigBuilder::with_connection_limits) and '
+         'observed through it only: the node under test with limits from {None,0,1,2}^2 and four remote nodes (one runtime each, so that a node can '
+         'be killed); operations: a remote dials the node, the node dials a remote by address, a remote is killed; recorded: whether the node '
+         'reports ConnectionEstablished / ConnectionClosed, the result of Litep2p::dial_address (Ok / ConnectionLimit), and what the remote saw '
+         '(open / established then closed / dial failed). The expected answers are computed by the MANAGER MODEL from the translation of each '
+         'operation into manager events (AllocConn, PendingInbound, Established, AcceptDone, Closed, dial_address). Oracle on the public '
+         'observations: never above the maxima, a new peer gets in below them, a turned-away remote sees its connection go, ConnectionLimit exactly '
+         'at the outbound maximum, ConnectionClosed exactly for a connected peer. (6) untagged: stored corpus cases in the plain manager format. '
+         'Non-trivial: trace >= 8 numbers; distinct (case, trace) pairs are counted.',
  'level_text': "Proof: the cap invariant (every established connection is recorded in its peer's state, ids unique, counted sets = established "
                'connections of that direction, sizes within the configured maxima, accept futures consistent) is inductive over every event the '
                'manager handles — connections arriving over several transports, dials spanning several transports —, for every configuration incl. '
@@ -72,17 +74,18 @@ ENTRY = {'coq_dir': 'C06',
                'theorems: an established connection never reuses a live id (the transports draw ids from one shared counter), a close notice names '
                'the owning peer and follows the accept future (discharged for the node by C07_node_feeds_manager). Composition with C08: the '
                "protocol is told Established only for a connection of the manager's ledger and once per id, and the manager's Closed / failed accept "
-               'arrive after the protocol was told (C07_order, C07_accept_each_once, C07_node_no_rollback). Not modelled: QUIC / WebRTC sockets '
-               "(features off in the harness build; quic's accept/reject bodies are tied by shape only), the scores of the address store (C10). "
-               'Observation outside the property text: ConnectionLimits::new calls HashSet::with_capacity(max), so a maximum of usize::MAX panics '
-               "with 'capacity overflow' when the node is built (not produced by the harness).",
+               'arrive after the protocol was told (C07_order, C07_accept_each_once, C07_node_no_rollback). Not modelled: WebRTC sockets; QUIC '
+               "sockets only in the thorough tier's aux stream (real QuicTransport pairs) and by the shape of its accept/reject bodies, the scores "
+               'of the address store (C10). Observation outside the property text: ConnectionLimits::new calls HashSet::with_capacity(max), so a '
+               "maximum of usize::MAX panics with 'capacity overflow' when the node is built (not produced by the harness).",
  'trusted_base': ['uniqueness of connection ids across transports (one shared atomic counter in the code) is an assumption of the manager theorems '
                   '(env_ok)',
                   'real-socket stream: "stays open" of an accepted connection is observed for 150 ms after the accept and again at the end of the '
                   'case; "goes away" of a rejected one within 10 s',
                   'complete-node stream: absence of an event is observed for 300 ms, presence within 10 s; remote nodes run on their own runtimes '
                   'and are killed by shutting the runtime down'],
- 'assumptions': ['two installed transports at most (TCP, WebSocket; quic / webrtc compiled out of the harness build)',
+ 'assumptions': ['manager stream: two installed transports at most (TCP, WebSocket); QUIC only in the socket stream of the thorough tier; webrtc not '
+                 'driven',
                  'usize counters do not wrap',
                  'limit configurations: None, Some 0, small (the theorems hold for every N; the harness produces None and 0..5)'],
  'clause_map': [['at any moment the node keeps at most two established connections per remote peer',
@@ -117,4 +120,10 @@ ENTRY = {'coq_dir': 'C06',
                  'rejections, accept failures and closures across several peers',
                  'all manager theorems quantify over every limits record, event list and state; C06_nonvacuous, Compose08.compose_nonvacuous',
                  'generator: limits {None,0..5} asymmetric, accept() errors, accept-future errors, failing reject / accept_pending / reject_pending, '
-                 '5 peers, 2 transports']]}
+                 '5 peers, 2 transports']],
+ 'aux_stream': {'tiers': ['thorough'],
+                'features': 'quic',
+                'target_dir': 'target-quic',
+                'args': '--focus limits --sock-quic 1',
+                'cases': {'thorough': 25},
+                'corpus': 'corpus/C06-quic'}}
